@@ -1,10 +1,15 @@
 (** Matching-logic semantics of the checker's patterns and the semantic soundness lemmas used by
     C01 (and, in their semantic form, C06/C11).  Sets are predicates, compared extensionally by
     [seq]; valuations by [veq]; no functional extensionality is used.
-    Metavariables are interpreted by *semantic atoms* keyed by the whole MetaVar node
-    (id and its five constraint lists): [av id ef sf pos neg holes : val -> set]. *)
+    *Opaque nodes* — metavariables (keyed by id AND the five constraint lists) and ESubst nodes whose
+    plug is not an element variable (syntactic substitution of a general pattern for an element
+    variable has no compositional semantics) — are interpreted by *semantic atoms*
+    [av node : val -> set] that must respect exactly the freshness the checker JUDGES for the node
+    ([av_ok]).  Instantiation re-defines the atoms by the denotation of the instantiated node
+    ([av_upd]); that this is again [av_ok] is the stability of the freshness judgements under
+    instantiation (JudgeInst.fresh_inst). *)
 From Coq Require Import NArith List Bool Lia Morphisms Setoid.
-From Pi2 Require Import ML.Syntax ML.Subst ML.Facts.
+From Pi2 Require Import ML.Syntax ML.Subst ML.Facts ML.Concrete ML.JudgeInst.
 Import ListNotations.
 Open Scope N_scope.
 
@@ -19,7 +24,7 @@ Definition veq (v w:val) := (forall x, ve v x = ve w x) /\ (forall X, seq (vs v 
 Definition upd_e (v:val) (x:N) (a:D) : val := mkval (fun y => if N.eqb y x then a else ve v y) (vs v).
 Definition upd_s (v:val) (X:N) (A:set) : val := mkval (ve v) (fun Y => if N.eqb Y X then A else vs v Y).
 
-Definition atoms := N -> list N -> list N -> list N -> list N -> list N -> val -> set.
+Definition atoms := pat -> val -> set.
 Section WithAv.
 Variable av : atoms.
 
@@ -32,16 +37,16 @@ Fixpoint eval (p:pat) (v:val) : set :=
  | App l r => fun d => exists a b, eval l v a /\ eval r v b /\ app_i a b d
  | Ex x p => fun d => exists a, eval p (upd_e v x a) d
  | Mu X p => fun d => forall A:set, (forall e, eval p (upd_s v X A) e -> A e) -> A d
- | MVar id ef sf pos neg holes => av id ef sf pos neg holes v
- | ESub p x plug => match plug with EVar y => eval p (upd_e v x (ve v y)) | _ => fun _ => False end
- | SSub p X plug => eval p (upd_s v X (eval plug v))
+ | MVar _ _ _ _ _ _ => av p v
+ | ESub q x plug => match plug with EVar y => eval q (upd_e v x (ve v y)) | _ => av p v end
+ | SSub q X plug => eval q (upd_s v X (eval plug v))
  end.
 
 (* atom valuation respects val equivalence and freshness constraints *)
-Definition av_ok := 
-  (forall id ef sf pos neg holes v w, veq v w -> seq (av id ef sf pos neg holes v) (av id ef sf pos neg holes w)) /\
-  (forall id ef sf pos neg holes v x a, mem x ef = true -> seq (av id ef sf pos neg holes (upd_e v x a)) (av id ef sf pos neg holes v)) /\
-  (forall id ef sf pos neg holes v X A, mem X sf = true -> seq (av id ef sf pos neg holes (upd_s v X A)) (av id ef sf pos neg holes v)).
+Definition av_ok :=
+  (forall n v w, veq v w -> seq (av n v) (av n w)) /\
+  (forall n v x a, e_fresh n x = true -> seq (av n (upd_e v x a)) (av n v)) /\
+  (forall n v X A, s_fresh n X = true -> seq (av n (upd_s v X A)) (av n v)).
 
 Hypothesis Hav : av_ok.
 
@@ -67,7 +72,7 @@ Proof.
     + apply veq_upd_s; [apply veq_sym, Hvw| intro; reflexivity].
     + apply veq_upd_s; [apply Hvw| intro; reflexivity].
   - destruct Hav as [H _]. apply H, Hvw.
-  - destruct plug as [z| | | | | | | | |]; try reflexivity. 
+  - destruct plug as [z| | | | | | | | |]; try (destruct Hav as [H _]; apply H, Hvw).
     assert (E: ve v z = ve w z) by apply Hvw. rewrite E. apply IHq. apply veq_upd_e, Hvw.
   - apply IHq. apply veq_upd_s; [apply Hvw | intro; apply IHplug, Hvw].
 Qed.
@@ -88,7 +93,7 @@ Proof. split; simpl; intros; [reflexivity | destruct (N.eqb X0 X); intro; reflex
 (* C06 (semantic form): meta-level freshness judgement implies semantic independence *)
 Lemma e_fresh_sound p : forall x v a, e_fresh p x = true -> seq (eval p (upd_e v x a)) (eval p v).
 Proof.
-  induction p as [n|n|n|l IHl r IHr|l IHl r IHr|y q IHq|Y q IHq|id ef sf pos neg holes|q IHq y plug IHplug|q IHq Y plug IHplug]; intros x v a Hf d; simpl in *.
+  induction p as [n|n|n|l IHl r IHr|l IHl r IHr|y q IHq|Y q IHq|id ef sf pos neg holes|q IHq y plug IHplug|q IHq Y plug IHplug]; intros x v a Hf d; pose proof Hf as Hf0; simpl in Hf |- *.
   - destruct (N.eqb_spec n x); [discriminate|]. reflexivity.
   - reflexivity.
   - reflexivity.
@@ -104,8 +109,8 @@ Proof.
   - split; intros H A HA; apply H; intros e He; apply HA.
     + apply (IHq _ (upd_s v Y A) a Hf e). apply (eval_ext q _ _ (upd_es_comm v x a Y A)). assumption.
     + apply (eval_ext q _ _ (upd_es_comm v x a Y A)). apply (IHq _ (upd_s v Y A) a Hf e). assumption.
-  - destruct Hav as (_ & H & _). apply H, Hf.
-  - destruct plug as [z| | | | | | | | |]; try reflexivity. simpl in Hf.
+  - destruct Hav as (_ & H & _). apply H, Hf0.
+  - destruct plug as [z| | | | | | | | |]; try (destruct Hav as (_ & H & _); apply H, Hf0). simpl in Hf.
     destruct (N.eqb_spec x y).
     + subst. destruct (N.eqb_spec z y); [discriminate|]. 
       apply eval_ext. apply upd_e_shadow.
@@ -120,7 +125,7 @@ Qed.
 
 Lemma s_fresh_sound p : forall X v A, s_fresh p X = true -> seq (eval p (upd_s v X A)) (eval p v).
 Proof.
-  induction p as [n|n|n|l IHl r IHr|l IHl r IHr|y q IHq|Y q IHq|id ef sf pos neg holes|q IHq y plug IHplug|q IHq Y plug IHplug]; intros X v A Hf d; simpl in *.
+  induction p as [n|n|n|l IHl r IHr|l IHl r IHr|y q IHq|Y q IHq|id ef sf pos neg holes|q IHq y plug IHplug|q IHq Y plug IHplug]; intros X v A Hf d; pose proof Hf as Hf0; simpl in Hf |- *.
   - reflexivity.
   - destruct (N.eqb_spec n X); [discriminate|]. reflexivity.
   - reflexivity.
@@ -136,8 +141,8 @@ Proof.
     + simpl in Hf. split; intros H B HB; apply H; intros e He; apply HB.
       * apply (IHq _ (upd_s v Y B) A Hf e). apply (eval_ext q _ _ (upd_s_comm v X Y A B n)). assumption.
       * apply (eval_ext q _ _ (upd_s_comm v X Y A B n)). apply (IHq _ (upd_s v Y B) A Hf e). assumption.
-  - destruct Hav as (_ & _ & H). apply H, Hf.
-  - destruct plug as [z| | | | | | | | |]; try reflexivity. simpl in Hf.
+  - destruct Hav as (_ & _ & H). apply H, Hf0.
+  - destruct plug as [z| | | | | | | | |]; try (destruct Hav as (_ & _ & H); apply H, Hf0). simpl in Hf.
     apply andb_true_iff in Hf as [H1 _].
     rewrite <- (IHq _ (upd_e v y (ve v z)) A H1 d).
     apply eval_ext. apply upd_es_comm.
@@ -239,16 +244,6 @@ Proof.
 Qed.
 End WithAv.
 
-(** discipline of C01_partial: every ESubst node has an EVar plug *)
-Fixpoint evp (p:pat) : bool :=
-  match p with
-  | Imp l r | App l r => evp l && evp r
-  | Ex _ q | Mu _ q => evp q
-  | ESub q _ plug => evp q && match plug with EVar _ => true | _ => false end
-  | SSub q _ plug => evp q && evp plug
-  | _ => true
-  end.
-
 (* ---- instantiate ---- *)
 Variable g : guards.
 Hypothesis G_ss_ex : g_ssubst_exists_capture g = true.
@@ -256,43 +251,34 @@ Hypothesis G_ss_mu : g_ssubst_mu_capture g = true.
 Hypothesis G_es_ex : g_esubst_exists_capture g = true.
 Hypothesis G_inst : g_inst_constraints g = true.
 
+(** after instantiating with (vars, plugs), an opaque node denotes what its instance denotes *)
 Definition av_upd (av:atoms) (vars:list N) (plugs:list pat) : atoms :=
-  fun id ef sf pos neg holes v =>
-    match lookup id vars plugs with
-    | Some (Some plug) => if check_constraints ef sf pos neg plug then eval av plug v else av id ef sf pos neg holes v
-    | _ => av id ef sf pos neg holes v
-    end.
-
-Lemma check_ef ef sf pos neg pl : check_constraints ef sf pos neg pl = true -> forallb (e_fresh pl) ef = true.
-Proof. unfold check_constraints. intros H. repeat (apply andb_true_iff in H as [H ?]). exact H. Qed.
-Lemma check_sf ef sf pos neg pl : check_constraints ef sf pos neg pl = true -> forallb (s_fresh pl) sf = true.
-Proof. unfold check_constraints. intros H. repeat (apply andb_true_iff in H as [H ?]). assumption. Qed.
+  fun n v => match inst g n vars plugs with Some q => eval av q v | None => av n v end.
 
 Lemma av_upd_ok av vars plugs : av_ok av -> av_ok (av_upd av vars plugs).
 Proof.
   intros Hav. pose proof Hav as (H1 & H2 & H3). unfold av_upd. split; [|split].
-  - intros id ef sf pos neg holes v w Hvw. destruct (lookup id vars plugs) as [[pl|]|]; try (apply H1, Hvw).
-    destruct (check_constraints ef sf pos neg pl); [apply eval_ext; assumption | apply H1, Hvw].
-  - intros id ef sf pos neg holes v x a Hm. destruct (lookup id vars plugs) as [[pl|]|]; try (apply H2, Hm).
-    destruct (check_constraints ef sf pos neg pl) eqn:Ec; [|apply H2, Hm].
-    apply e_fresh_sound; [assumption|]. eapply forallb_mem; [eapply check_ef; eassumption | exact Hm].
-  - intros id ef sf pos neg holes v X A Hm. destruct (lookup id vars plugs) as [[pl|]|]; try (apply H3, Hm).
-    destruct (check_constraints ef sf pos neg pl) eqn:Ec; [|apply H3, Hm].
-    apply s_fresh_sound; [assumption|]. eapply forallb_mem; [eapply check_sf; eassumption | exact Hm].
+  - intros n v w Hvw. destruct (inst g n vars plugs) as [q|]; [apply eval_ext; assumption | apply H1, Hvw].
+  - intros n v x a Hf. destruct (inst g n vars plugs) as [q|] eqn:Ei; [|apply H2, Hf].
+    apply e_fresh_sound; [assumption|]. destruct (fresh_inst g G_inst _ _ _ _ Ei) as [F _]. apply F, Hf.
+  - intros n v X A Hf. destruct (inst g n vars plugs) as [q|] eqn:Ei; [|apply H3, Hf].
+    apply s_fresh_sound; [assumption|]. destruct (fresh_inst g G_inst _ _ _ _ Ei) as [_ F]. apply F, Hf.
 Qed.
 
 Lemma eval_untouched av vars plugs (Hav: av_ok av) p : forall v, touches p vars = false ->
   seq (eval av p v) (eval (av_upd av vars plugs) p v).
 Proof.
-  induction p as [n|n|n|l IHl r IHr|l IHl r IHr|y q IHq|Y q IHq|id ef sf pos neg holes|q IHq y plug IHplug|q IHq Y plug IHplug]; intros v Ht d; simpl in *; try reflexivity.
+  induction p as [n|n|n|l IHl r IHr|l IHl r IHr|y q IHq|Y q IHq|id ef sf pos neg holes|q IHq y plug IHplug|q IHq Y plug IHplug]; intros v Ht d; pose proof Ht as Ht0; simpl in Ht |- *; try reflexivity.
   - apply orb_false_iff in Ht as [H1 H2]. rewrite (IHl v H1 d), (IHr v H2 d). reflexivity.
   - apply orb_false_iff in Ht as [H1 H2].
     split; intros (a & b & Ha & Hb & Hab); exists a, b; (split;[|split]); auto;
     try (apply (IHl v H1 a); assumption); try (apply (IHr v H2 b); assumption).
   - split; intros [b Hb]; exists b; apply (IHq (upd_e v y b) Ht d); assumption.
   - split; intros H B HB; apply H; intros e He; apply HB; apply (IHq (upd_s v Y B) Ht e); assumption.
-  - unfold av_upd. apply (lookup_none id vars plugs) in Ht. rewrite Ht. reflexivity.
-  - apply orb_false_iff in Ht as [H1 H2]. destruct plug; try reflexivity. apply (IHq _ H1 d).
+  - unfold av_upd. rewrite (inst_untouched g _ _ plugs Ht0). reflexivity.
+  - apply orb_false_iff in Ht as [H1 H2].
+    destruct plug as [z| | | | | | | | |]; try (unfold av_upd; rewrite (inst_untouched g _ _ plugs Ht0); reflexivity).
+    apply (IHq _ H1 d).
   - apply orb_false_iff in Ht as [H1 H2].
     rewrite (IHq (upd_s v Y (eval av plug v)) H1 d).
     apply eval_ext; [apply av_upd_ok, Hav|].
@@ -300,43 +286,39 @@ Proof.
     intro e. apply (IHplug v H2 e).
 Qed.
 
-Lemma inst_sound av vars plugs (Hav: av_ok av) p : forall q v, evp p = true ->
+Lemma inst_sound av vars plugs (Hav: av_ok av) p : forall q v,
   inst g p vars plugs = Some q -> seq (eval av q v) (eval (av_upd av vars plugs) p v).
 Proof.
-  induction p as [n|n|n|l IHl r IHr|l IHl r IHr|y q IHq|Y q IHq|id ef sf pos neg holes|q IHq y plug IHplug|q IHq Y plug IHplug]; intros q0 v Hd Hi d; simpl in Hi, Hd.
+  induction p as [n|n|n|l IHl r IHr|l IHl r IHr|y q IHq|Y q IHq|id ef sf pos neg holes|q IHq y plug IHplug|q IHq Y plug IHplug]; intros q0 v Hi d; pose proof Hi as Hi0; simpl in Hi.
   - inversion Hi; subst; reflexivity.
   - inversion Hi; subst; reflexivity.
   - inversion Hi; subst; reflexivity.
-  - apply andb_true_iff in Hd as [D1 D2].
-    destruct (inst g l vars plugs) eqn:El; [|discriminate]. destruct (inst g r vars plugs) eqn:Er; [|discriminate].
-    inversion Hi; subst. simpl. rewrite (IHl _ v D1 eq_refl d), (IHr _ v D2 eq_refl d). reflexivity.
-  - apply andb_true_iff in Hd as [D1 D2].
-    destruct (inst g l vars plugs) eqn:El; [|discriminate]. destruct (inst g r vars plugs) eqn:Er; [|discriminate].
+  - destruct (inst g l vars plugs) eqn:El; [|discriminate]. destruct (inst g r vars plugs) eqn:Er; [|discriminate].
+    inversion Hi; subst. simpl. rewrite (IHl _ v eq_refl d), (IHr _ v eq_refl d). reflexivity.
+  - destruct (inst g l vars plugs) eqn:El; [|discriminate]. destruct (inst g r vars plugs) eqn:Er; [|discriminate].
     inversion Hi; subst. simpl.
     split; intros (u & w & Hu & Hw & Huw); exists u, w; (split;[|split]); auto;
-    try (apply (IHl _ v D1 eq_refl u); assumption); try (apply (IHr _ v D2 eq_refl w); assumption).
+    try (apply (IHl _ v eq_refl u); assumption); try (apply (IHr _ v eq_refl w); assumption).
   - destruct (inst g q vars plugs) eqn:Eq; [|discriminate]. inversion Hi; subst. simpl.
-    split; intros [b Hb]; exists b; apply (IHq _ (upd_e v y b) Hd eq_refl d); assumption.
+    split; intros [b Hb]; exists b; apply (IHq _ (upd_e v y b) eq_refl d); assumption.
   - destruct (inst g q vars plugs) eqn:Eq; [|discriminate]. inversion Hi; subst. simpl.
-    split; intros H B HB; apply H; intros e He; apply HB; apply (IHq _ (upd_s v Y B) Hd eq_refl e); assumption.
-  - unfold av_upd. simpl. destruct (lookup id vars plugs) as [[pl|]|].
-    + rewrite G_inst in Hi. simpl in Hi. destruct (check_constraints ef sf pos neg pl); [|discriminate]. inversion Hi; subst. reflexivity.
-    + discriminate.
-    + inversion Hi; subst. reflexivity.
-  - apply andb_true_iff in Hd as [D1 D2]. destruct plug as [z| | | | | | | | |]; try discriminate.
+    split; intros H B HB; apply H; intros e He; apply HB; apply (IHq _ (upd_s v Y B) eq_refl e); assumption.
+  - (* metavariable: an opaque node, re-defined by its instance *)
+    cbn [eval]. unfold av_upd. rewrite Hi0. reflexivity.
+  - destruct plug as [z| | | | | | | | |]; try (cbn [eval]; unfold av_upd; rewrite Hi0; reflexivity).
+    (* element-variable plug: compositional *)
     destruct (touches q vars || touches (EVar z) vars) eqn:Et.
     + destruct (inst g q vars plugs) eqn:Eq; [|discriminate]. simpl in Hi.
       rewrite (esubst_sound av Hav g G_es_ex _ _ _ _ v Hi d). simpl.
-      apply (IHq _ (upd_e v y (ve v z)) D1 eq_refl d).
+      apply (IHq _ (upd_e v y (ve v z)) eq_refl d).
     + inversion Hi; subst. apply (eval_untouched av vars plugs Hav (ESub q y (EVar z)) v Et d).
-  - apply andb_true_iff in Hd as [D1 D2].
-    destruct (touches q vars || touches plug vars) eqn:Et.
+  - destruct (touches q vars || touches plug vars) eqn:Et.
     + destruct (inst g q vars plugs) eqn:Eq; [|discriminate]. destruct (inst g plug vars plugs) eqn:Ep; [|discriminate].
       rewrite (ssubst_sound av Hav g G_ss_ex G_ss_mu _ _ _ _ v Hi d). simpl.
-      rewrite (IHq _ (upd_s v Y (eval av p0 v)) D1 eq_refl d).
+      rewrite (IHq _ (upd_s v Y (eval av p0 v)) eq_refl d).
       apply eval_ext; [apply av_upd_ok, Hav|].
       split; simpl; [reflexivity|]. intros Z. destruct (N.eqb Z Y); [|intro; reflexivity].
-      intro e. apply (IHplug _ v D2 eq_refl e).
+      intro e. apply (IHplug _ v eq_refl e).
     + inversion Hi; subst. apply (eval_untouched av vars plugs Hav (SSub q Y plug) v Et d).
 Qed.
 End Sem.
